@@ -715,25 +715,58 @@ class Accumulator:
     """the string / list a rendering function builds and returns: `res = ''` ... `res += x` ... `return res`
     (also `res = res + x`, `parts.append(x)` + `return sep.join(parts)`)"""
 
+    _TRANSFORMS = ('strip', 'rstrip', 'lstrip', 'removesuffix', 'removeprefix', 'replace', 'expandtabs', 'split', 'splitlines',
+                   'partition', 'rpartition', 'title', 'upper', 'lower', 'center', 'ljust', 'rjust', 'zfill', 'translate')
+
     def __init__(self, func: Func):
         self.func = func
         self.name: Optional[str] = None
         self.sep: Optional[str] = None
         self.problem: Optional[str] = None
+        self.transformed: List[Tuple[ast.Return, ast.AST]] = []   # returns of strip()/slice/... of the accumulated text
+        self.foreign: List[Tuple[ast.Return, ast.AST]] = []       # returns of something else
         rets = [n for n in walk_no_nested(func.node) if isinstance(n, ast.Return) and n.value is not None]
-        names = set()
-        for r in rets:
-            v = r.value
+
+        def leaves(v):
+            if isinstance(v, ast.IfExp):
+                return leaves(v.body) + leaves(v.orelse)
+            return [v]
+
+        def plain(v):
             if isinstance(v, ast.Name):
-                names.add((v.id, None))
-            else:
-                m = match("$s.join($n)", v)
-                if m and isinstance(m['n'], ast.Name) and const_str(m['s']) is not None:
-                    names.add((m['n'].id, const_str(m['s'])))
+                return v.id, None
+            m = match("$s.join($n)", v)
+            if m and isinstance(m['n'], ast.Name) and const_str(m['s']) is not None:
+                return m['n'].id, const_str(m['s'])
+            return None
+
+        names = set()
+        others = []
+        for r in rets:
+            for v in leaves(r.value):
+                pl = plain(v)
+                if pl:
+                    names.add(pl)
+                    continue
+                inner = None
+                if isinstance(v, ast.Call) and isinstance(v.func, ast.Attribute) and v.func.attr in self._TRANSFORMS:
+                    inner = plain(v.func.value)
+                elif isinstance(v, ast.Subscript):
+                    inner = plain(v.value)
+                if inner:
+                    names.add(inner)
+                    self.transformed.append((r, v))
                 else:
-                    names.add((None, None))
-        if len(names) == 1 and next(iter(names))[0] is not None:
+                    others.append((r, v))
+        # prefer the variable that is actually extended in the function
+        if len(names) > 1:
+            grown = {n.target.id for n in walk_no_nested(func.node) if isinstance(n, ast.AugAssign) and isinstance(n.target, ast.Name)}
+            grown |= {n.func.value.id for n in walk_no_nested(func.node) if isinstance(n, ast.Call) and isinstance(n.func, ast.Attribute)
+                      and n.func.attr == 'append' and isinstance(n.func.value, ast.Name)}
+            names = {x for x in names if x[0] in grown} or names
+        if len(names) == 1:
             self.name, self.sep = next(iter(names))
+            self.foreign = others
         else:
             self.problem = "the function does not return one accumulator variable on every path"
 
